@@ -60,6 +60,10 @@ theorem C18_etag_changes_iff (i l s n i' l' s' n' : Nat) :
   · exact fileEtag_injective i l s n i' l' s' n'
   · rintro ⟨rfl, rfl, rfl, rfl⟩; rfl
 
+/-- Constructing it on a non-regular file is refused: accepted exactly for regular files. -/
+theorem C18_refuses_non_regular (k : FileKind) : newWithMetadata k = true ↔ k = .regular := by
+  cases k <;> simp [newWithMetadata]
+
 /-- Non-vacuity: a 100000-byte range of an unchanged 200000-byte file with full reads. -/
 example : AdmRun 0 100000 [(200000, 65536), (200000, 34464), (200000, 0)] ∧
     fileRunK 0 100000 [(200000, 65536), (200000, 34464), (200000, 0)] =
